@@ -46,8 +46,10 @@ EvPrepare ==
 
 EvModes ==
   /\ E.ev = "Modes"
+  /\ LET wrong == {t \in Leafs : E.fwd[t] # ExpFwd(t)}      \* the directions the loop starts with are those of the specification
+     IN /\ conf' = (conf /\ wrong = {}) /\ div' = Note(wrong = {}, <<"Modes", wrong>>)
   /\ ts' = [t \in 1..NT |-> [ts[t] EXCEPT !.fwd = E.fwd[t]]]
-  /\ UNCHANGED <<used, usage, lim, lsec, cur, conf, div, bad>>
+  /\ UNCHANGED <<used, usage, lim, lsec, cur, bad>>
 
 EvPreMilestone ==
   /\ E.ev = "PreMilestone"
@@ -222,6 +224,7 @@ EvDone ==
         /\ bad' = bad \cup Flag(~E.ok \/ P06Of(t, E.start, E.end, T(t).effort), <<"C06", l, "start/end order", t>>)
                       \cup Flag(~E.ok \/ P04Of(t, E.start, E.end), <<"C04", l, "starts before predecessor end + gap", t>>)
                       \cup Flag(~(E.ok /\ worked) \/ P06Tight(t, E.start, E.end, ts[t].lo, ts[t].hi), <<"C06", l, "not tight", t>>)
+                      \cup Flag(~(E.ok /\ worked) \/ P06Fits(t, E.start, E.end, ts[t].lo, ts[t].hi), <<"C06", l, "work booked in the first / last slot does not fit inside [start, end]", t>>)
                       \* milestone: start = end at its bound (own pin, else dependency bound)
                       \cup Flag(~(E.ok /\ isMs) \/ (E.start = E.end /\ E.start = IF Fwd(t) THEN BoundF(t) ELSE Deadline(t)), <<"C06", l, "milestone not at its bound", t>>)
                       \cup Flag(P02Set(ts[t].pb), <<"C02", l, "booked outside working time", <<t, ts[t].pb>>>>)
